@@ -550,6 +550,76 @@ fn cond_family(only: Option<u64>) {
     println!("{{\"family\":\"cond\",\"fn\":\"extract\",\"cases\":{},\"failures\":{},\"failed_cases\":{:?},\"first\":{}}}", cases, failed.len(), failed, first.unwrap_or("null".into()));
 }
 
+// family `condlist` (C05, bounded, source level): `type X = A extends B | C ? 1 : 2` for tuple types with a prefix up
+// to length 2 over {string, number, string | number} and an optional rest of the same kinds (52 shapes), against
+// brute force over all lists of length <= 4 over string / number / boolean elements. `thin` keeps every n-th triple.
+fn condlist_family(only: Option<u64>, thin: u64) {
+    let items: [u8; 3] = [1, 2, 3];
+    type Shape = (Vec<u8>, Option<u8>);
+    let mut shapes: Vec<Shape> = vec![];
+    for len in 0..=2usize {
+        let mut idx = vec![0usize; len];
+        loop {
+            let pre: Vec<u8> = idx.iter().map(|i| items[*i]).collect();
+            shapes.push((pre.clone(), None));
+            for r in items { shapes.push((pre.clone(), Some(r))); }
+            let mut k = 0;
+            loop { if k == len { break; } idx[k] += 1; if idx[k] < 3 { break; } idx[k] = 0; k += 1; }
+            if k == len { break; }
+        }
+    }
+    let item_ts = |m: u8| match m { 1 => "string", 2 => "number", _ => "string | number" };
+    let shape_ts = |s: &Shape| { let mut parts: Vec<String> = s.0.iter().map(|m| item_ts(*m).to_string()).collect(); if let Some(r) = s.1 { parts.push(format!("...({})[]", item_ts(r))); } format!("[{}]", parts.join(", ")) };
+    let in_shape = |s: &Shape, l: &[usize]| -> bool {
+        if l.len() < s.0.len() { return false; }
+        if l.len() > s.0.len() && s.1.is_none() { return false; }
+        l.iter().enumerate().all(|(i, v)| { let m = if i < s.0.len() { s.0[i] } else { s.1.unwrap() }; (m >> *v) & 1 == 1 })
+    };
+    let mut lists: Vec<Vec<usize>> = vec![vec![]];
+    let mut frontier: Vec<Vec<usize>> = vec![vec![]];
+    for _ in 0..4 { let mut next = vec![]; for l in &frontier { for b in 0..3usize { let mut l2 = l.clone(); l2.push(b); next.push(l2); } } lists.extend(next.iter().cloned()); frontier = next; }
+    let member: Vec<Vec<bool>> = shapes.iter().map(|s| lists.iter().map(|l| in_shape(s, l)).collect()).collect();
+    let n = shapes.len();
+    let (mut cases, mut skipped) = (0u64, 0u64);
+    let mut evaluated = 0u64;
+    let mut failed: Vec<u64> = vec![];
+    let mut first: Option<String> = None;
+    std::panic::set_hook(Box::new(|_| {}));
+    for a in 0..n { for b in 0..n { for c in 0..n {
+        cases += 1;
+        if let Some(o) = only { if o != cases { continue; } } else if cases % thin != 0 { continue; }
+        evaluated += 1;
+        let spec = (0..lists.len()).all(|k| !member[a][k] || member[b][k] || member[c][k]);
+        let src = format!("type A = {};\ntype B = {};\ntype C = {};\ntype X = A extends B | C ? 1 : 2;\nparse.buildParsers<{{ X: X }}>();\n", shape_ts(&shapes[a]), shape_ts(&shapes[b]), shape_ts(&shapes[c]));
+        let answer: Result<Option<bool>, String> = match std::panic::catch_unwind(|| {
+            GLOBALS.set(&Globals::new(), || {
+                let f = BffFileName::new("entry.ts".into());
+                let m = match parse_and_bind(&mut Res {}, &f, &src) { Ok(m) => m, Err(_) => return None };
+                let mut fs = BTreeMap::new();
+                fs.insert(f, m);
+                let mut man = Fm { fs };
+                let p = beff_core::extract(&mut man, EntryPoints { parser_entry_point: BffFileName::new("entry.ts".into()),
+                    settings: BeffUserSettings { string_formats: BTreeSet::new(), number_formats: BTreeSet::new() } });
+                if !p.errors.is_empty() { return None; }
+                let out = p.debug_print();
+                if out.contains("type X = 1;") { Some(true) } else if out.contains("type X = 2;") { Some(false) } else { None }
+            })
+        }) { Ok(x) => Ok(x), Err(_) => Err("the compiler PANICS".to_string()) };
+        let bad = match answer {
+            Ok(None) => { skipped += 1; None }
+            Ok(Some(r)) => if r != spec { Some(format!("the conditional type takes the branch {}", if r { 1 } else { 2 })) } else { None },
+            Err(e) => Some(e),
+        };
+        if let Some(obs) = bad {
+            failed.push(cases);
+            if std::env::var("TWIN_ALL").is_ok() { eprintln!("FAIL case {} | {} extends {} | {} | {} | expected {}", cases, shape_ts(&shapes[a]), shape_ts(&shapes[b]), shape_ts(&shapes[c]), obs, if spec { 1 } else { 2 }); }
+            if first.is_none() { first = Some(format!("{{\"case\":{},\"input\":{:?},\"observed\":{:?},\"required\":{:?}}}", cases, src, obs, format!("branch {} (brute force over all lists of length <= 4)", if spec { 1 } else { 2 }))); }
+        }
+    } } }
+    if skipped > 0 { eprintln!("condlist: {} questions answered with a diagnostic (skipped)", skipped); }
+    println!("{{\"family\":\"condlist\",\"fn\":\"extract\",\"cases\":{},\"universe\":{},\"failures\":{},\"failed_cases\":{:?},\"first\":{}}}", evaluated, cases, failed.len(), failed, first.unwrap_or("null".into()));
+}
+
 fn main() {
     let args: Vec<String> = std::env::args().collect();
     let mut depth = 1usize;
@@ -559,6 +629,7 @@ fn main() {
     let mut offset = 0usize;
     let mut is_child = false;
     let mut cond = false;
+    let mut condlist: Option<u64> = None;
     let mut i = 1;
     while i < args.len() {
         match args[i].as_str() {
@@ -569,10 +640,12 @@ fn main() {
             "--offset" => { offset = args[i + 1].parse().unwrap(); i += 2; }
             "--child" => { is_child = true; i += 1; }
             "--cond" => { cond = true; i += 1; }
+            "--condlist" => { condlist = Some(args[i + 1].parse().unwrap()); i += 2; }
             _ => i += 1,
         }
     }
     if cond { cond_family(only); return; }
+    if let Some(thin) = condlist { condlist_family(only, thin); return; }
     if is_child { child(depth, offset, from, only, timeout_s); return; }
     let exe = std::env::current_exe().expect("exe");
     let total = if std::env::var("FRONT_SRC").is_ok() { 1 } else { programs(depth, offset).len() as u64 };
